@@ -584,7 +584,7 @@ def rpy2q(angles: np.ndarray, in_deg: bool = False) -> np.ndarray:
         cy*cp*sr - sy*sp*cr,
         sy*cp*sr + cy*sp*cr,
         sy*cp*cr - cy*sp*sr])
-    q /= np.linalg.norm(q)
+    q /= np.linalg.norm(q, axis=0)      # one norm per quaternion: the N quaternions of an N-by-3 input are the columns of q
     return q
 
 def cardan2q(angles: np.ndarray, in_deg: bool = False) -> np.ndarray:
